@@ -47,7 +47,7 @@ def main():
         sh(["git", "-C", repo, "checkout", "-q", "--", "."])
         head = sh(["git", "-C", "/repo", "rev-parse", "HEAD"]).stdout.strip()
         sh(["git", "-C", repo, "checkout", "-q", "--detach", head])
-        r = sh(["rsync", "-a", "--delete", "--exclude", ".git", "--exclude", "work/replay", "--exclude", "seeded",
+        r = sh(["true"]) if os.environ.get("VSEED_SYNC") == "0" and os.path.isdir(verif) else sh(["rsync", "-a", "--delete", "--exclude", ".git", "--exclude", "work/replay", "--exclude", "seeded",
                 V + "/", verif + "/"])
         if r.returncode:
             print(r.stderr); return 2
